@@ -235,3 +235,11 @@ Proof.
   intros V Bp Bq H. destruct (boundary_split inp p V Bp) as [_ V2].
   rewrite (boundary_shift inp p q (boundaryb_le _ _ Bp) H) in Bq. now apply (boundary_split _ _ V2 Bq).
 Qed.
+
+(* sanity: the standard encodings of U+0041, U+00E9, U+20AC, U+1F600, and the extremes of each length *)
+Example encode_samples :
+  encode 65 = [65]%N /\ encode 233 = [195; 169]%N /\ encode 8364 = [226; 130; 172]%N /\
+  encode 128512 = [240; 159; 152; 128]%N /\ encode 127 = [127]%N /\ encode 128 = [194; 128]%N /\
+  encode 2047 = [223; 191]%N /\ encode 2048 = [224; 160; 128]%N /\ encode 65535 = [239; 191; 191]%N /\
+  encode 65536 = [240; 144; 128; 128]%N /\ encode 1114111 = [244; 143; 191; 191]%N.
+Proof. vm_compute. repeat split. Qed.
